@@ -183,6 +183,48 @@ func c18Agreements(r *Run) {
 			r.bad("C18.R8", "exported-key-relative|matcher", "-", "at least 10 iterators in exporters", fmt.Sprintf("only %d found", nIter))
 		}
 	}
+	// ---- an operator value record can exist without its AVS's value record (opting in writes the operator's zero
+	// record only; the AVS record is written by the voting-power update at the epoch end), so validation may demand
+	// the AVS record only for an operator record that carries a value
+	{
+		iv := w.View("x/operator/keeper", "Keeper.InitOperatorUSDValue")
+		vv := w.View("x/operator/types", "GenesisState.ValidateOperatorUSDValues")
+		if iv == nil || vv == nil {
+			r.bad("C18.R8", "operator-value-without-avs-value", "-", "anchor", "InitOperatorUSDValue or ValidateOperatorUSDValues not found")
+		} else {
+			writesAlone := len(iv.CallsNamed("Set")) >= 1 && len(iv.CallsNamed("SetAVSUSDValue", "UpdateAVSUSDValue", "InitAVSUSDValue")) == 0
+			offending := ""
+			nMissing := 0
+			ast.Inspect(vv.Decl.Body, func(n ast.Node) bool {
+				rs, ok := n.(*ast.ReturnStmt)
+				if !ok || !returnsErr(vv, rs) {
+					return true
+				}
+				missing, valued := false, false
+				for _, f := range vv.FactsAt(rs, false) {
+					// `ok` of the comma-ok lookup in the AVS value map is false
+					if id, isID := stripParens(f.Atom).(*ast.Ident); isID && !f.Truth {
+						for _, d := range vv.defsOf(vv.Info.ObjectOf(id)) {
+							if ix, isIx := stripParens(d).(*ast.IndexExpr); isIx && strings.Contains(strings.ToLower(exprString(ix.X)), "avsusdvalue") {
+								missing = true
+							}
+						}
+					}
+					if c, isC := stripParens(f.Atom).(*ast.CallExpr); isC && !f.Truth && strings.HasSuffix(exprString(c.Fun), "TotalUSDValue.IsZero") {
+						valued = true
+					}
+				}
+				if missing {
+					nMissing++
+					if !valued {
+						offending = vv.pos(rs)
+					}
+				}
+				return true
+			})
+			r.check(!writesAlone || (offending == "" && nMissing >= 0), "C18.R8", "operator-value-without-avs-value", vv.pos(vv.Decl), "genesis validation demands an AVS value record only for an operator value record that is not zero", "ValidateOperatorUSDValues rejects at "+offending+" every operator value record whose AVS has no value record, but InitOperatorUSDValue (opt-in) writes the operator's zero record without an AVS record: the export taken between an opt-in and the AVS's first epoch end fails the module's own validation")
+		}
+	}
 	// ---- dogfood validator set bound
 	if dv := w.View("x/dogfood/types", "GenesisState.Validate"); dv == nil {
 		r.bad("C18.R8", "valset-bound", "-", "anchor", "dogfood GenesisState.Validate not found")
